@@ -36,6 +36,13 @@ type hpLine struct {
 	MaxNum    int64    `json:"maxnum"`   // largest reported fraction * total, rounded
 	Backwards int      `json:"backwards"`
 	NaN       int      `json:"nan"`
+	// the same damaged directory validated WITHOUT a healer first: the scan fraction bytesDone / container size
+	ScanErr       string `json:"scanerr"`
+	ScanCalls     int    `json:"scancalls"`
+	ScanFinalNum  int64  `json:"scanfinalnum"`
+	ScanMaxNum    int64  `json:"scanmaxnum"`
+	ScanBackwards int    `json:"scanbackwards"`
+	ScanNaN       int    `json:"scannan"`
 }
 
 func cmdHealProgress(args []string) error {
@@ -136,9 +143,35 @@ func cmdHealProgress(args []string) error {
 			}
 			line.Disks = append(line.Disks, d)
 		}
+		total := float64(line.Total)
+		{
+			var smu sync.Mutex
+			slast := math.Inf(-1)
+			scons := &state.Consumer{OnProgress: func(p float64) {
+				smu.Lock()
+				defer smu.Unlock()
+				line.ScanCalls++
+				if math.IsNaN(p) || math.IsInf(p, 0) {
+					line.ScanNaN++
+					return
+				}
+				num := int64(math.Round(p * total))
+				if num > line.ScanMaxNum {
+					line.ScanMaxNum = num
+				}
+				if p < slast {
+					line.ScanBackwards++
+				}
+				slast = p
+				line.ScanFinalNum = num
+			}}
+			sctx := &pwr.ValidatorContext{Consumer: scons}
+			if err := sctx.Validate(context.Background(), dir, si); err != nil {
+				line.ScanErr = err.Error()
+			}
+		}
 		var mu sync.Mutex
 		last := math.Inf(-1)
-		total := float64(line.Total)
 		cons := &state.Consumer{OnProgress: func(p float64) {
 			mu.Lock()
 			defer mu.Unlock()
